@@ -71,6 +71,12 @@ SEEDS = (
     "from vpulses usepulses *\nregister q[2]\nprepare_all\na q[0]\nmeasure_all\n",
     "from .vpulses usepulses *\nregister q[2]\nsubcircuit { g q[1] }\n",
     "from vpulses usepulses *\nlet n 2\nregister q[n]\nmacro m b { a b }\nloop n { subcircuit { m q[0] } }\n",
+    # no register at all
+    "prepare_all\nmeasure_all\n",
+    # one replacement away from using a float / a negative constant / a register where an integer belongs
+    "let a 1.5\nlet n 1\nregister q[n]\nloop n { prepare_all; Rz q[0] a; measure_all }\nsubcircuit n { X q[0] }\n",
+    "let a -1\nregister q[2]\nmap b q[1]\nloop 1 { prepare_all; X q[1]; measure_all }\n",
+    "register q[2]\nmacro m a b { loop a { X b } }\nprepare_all\nm 1 q[0]\nmeasure_all\n",
 )
 
 EPS = ("parse", "header", "auto", "run", "runstr")
@@ -243,29 +249,72 @@ _MIN = {}
 
 
 def minimise(ep, clause, text):
-    """delete characters (chunks first) while (ep, clause) still fails; deterministic, memoised"""
+    """delete statements, then chunks of characters, then respell (letters -> a, digits -> 1) while
+    (ep, clause) still fails, to a fixpoint; deterministic, memoised"""
     k0 = (ep, clause, text)
     if k0 in _MIN:
         return _MIN[k0]
+
+    def bad(t):
+        return _has_failure(ep, clause, t)
+
     cur = text
-    chunk = max(1, len(cur) // 2)
     while True:
-        i = 0
-        shrunk = False
-        while i < len(cur):
-            cand = cur[:i] + cur[i + chunk:]
-            if cand != cur and _has_failure(ep, clause, cand):
-                cur = cand
-                shrunk = True
+        before = cur
+        # whole statements (pieces ending at a newline or a semicolon)
+        again = True
+        while again:
+            again = False
+            pieces = _pieces(cur)
+            for i in range(len(pieces)):
+                cand = "".join(pieces[:i] + pieces[i + 1:])
+                if bad(cand):
+                    cur = cand
+                    again = True
+                    break
+        # chunks of characters, halving down to single characters
+        chunk = max(1, len(cur) // 2)
+        while True:
+            i = 0
+            shrunk = False
+            while i < len(cur):
+                cand = cur[:i] + cur[i + chunk:]
+                if cand != cur and bad(cand):
+                    cur = cand
+                    shrunk = True
+                else:
+                    i += chunk
+            if chunk == 1:
+                if not shrunk:
+                    break
             else:
-                i += chunk
-        if chunk == 1:
-            if not shrunk:
-                break
-        else:
-            chunk = max(1, chunk // 2)
+                chunk = max(1, chunk // 2)
+        # canonical spelling (fewer distinct minima per defect)
+        for i, ch in enumerate(cur):
+            sub = _canon_char(ch)
+            if sub != ch:
+                cand = cur[:i] + sub + cur[i + 1:]
+                if bad(cand):
+                    cur = cand
+        if cur == before:
+            break
     _MIN[k0] = cur
     return cur
+
+
+_PIECE = re.compile(r"[^\n;]*[\n;]|[^\n;]+$")
+
+
+def _pieces(text):
+    return _PIECE.findall(text)
+
+
+def _canon_char(ch):
+    if ch.isalpha() and ch.isascii():
+        return "a"
+    if ch.isdigit():
+        return "1"
+    return ch
 
 
 _DIGITS = re.compile(r"\d+")
@@ -342,27 +391,20 @@ def baseline(call):
 
 
 def precompute_baselines(calls):
-    """twice each, concurrently; a baseline that is not reproducible is a harness error"""
+    """one fresh interpreter per call, a few at a time (the one-call histories of the space run each
+    call a second time, so a baseline that is not reproducible shows up as a failure there)"""
     todo = [c for c in calls if c not in _BASE]
     width = max(1, min(NPROC, 8))
     for i in range(0, len(todo), width):
-        group = todo[i:i + width]
         procs = []
-        for c in group:
-            for _rep in (0, 1):
-                p = _spawn(["-"])
-                p.stdin.write(json.dumps([c]))
-                p.stdin.close()
-                p.stdin = None
-                procs.append((c, p))
-        got = {}
+        for c in todo[i:i + width]:
+            p = _spawn(["-"])
+            p.stdin.write(json.dumps([c]))
+            p.stdin.close()
+            p.stdin = None
+            procs.append((c, p))
         for c, p in procs:
-            got.setdefault(c, []).append(_collect(p)[0])
-        for c in group:
-            a, b = got[c]
-            if a != b:
-                raise RuntimeError("baseline of call %r is not reproducible: %r vs %r" % (c, a, b))
-            _BASE[c] = a
+            _BASE[c] = _collect(p)[0]
 
 
 def _digest(o):
@@ -451,7 +493,7 @@ def reduce_sequence(seq, call):
 # ------------------------------------------------------------------------------ the check
 class C16(Check):
     id = "C16"
-    nshards = 64
+    nshards = 127  # prime: contexts, alphabet and call indices all spread over the shards
     rule = (
         "space 1: every string over the character alphabet up to the length bound, alone and after each seed "
         "prefix, plus every single-character insertion/deletion/replacement in the seed programs, each through "
@@ -536,11 +578,30 @@ class C16(Check):
                 yield ("tree", c, 3, 1)
             yield from self._ext_cases(0, 5, only_len=5)
 
-    def selfcheck(self):
-        precompute_baselines(drv.ALPHABET + drv.EXTRA)
+    def shards(self, tier):
+        # runs in the parent before the worker pool is forked: the workers inherit the baselines
+        # (a replay computes the ones it needs on demand)
+        precompute_baselines(drv.ALPHABET if tier == "quick" else drv.ALPHABET + drv.EXTRA)
         kinds = set("ok" in o for o in _BASE.values())
         if kinds != {True, False}:
             raise RuntimeError("the call alphabet does not contain both succeeding and failing calls")
+        return super().shards(tier)
+
+    def selfcheck(self):
+        assert set(drv.ALPHABET + drv.EXTRA) == set(drv.CALLS)
+        for name, (ep, _text) in drv.CALLS.items():
+            assert ep in ("parse", "auto", "header", "sexpr", "emulate", "runstr"), name
+        # the position oracle accepts and rejects what it should
+        class _E:  # noqa: N801
+            def __init__(self, line, column):
+                self.line, self.column = line, column
+
+        t = "ab\ncd"
+        assert _position_fault(_E(1, 1), t) is None and _position_fault(_E(2, 3), t) is None
+        assert _position_fault(_E(3, 1), t) is None and _position_fault(_E("EOF", 0), t) is None
+        assert _position_fault(_E(0, 1), t) and _position_fault(_E(4, 1), t)
+        assert _position_fault(_E(1, 0), t) and _position_fault(_E(1, 4), t) and _position_fault(_E(3, 2), t)
+        assert _position_fault(object(), t)
 
     # ---- presentation
     def show(self, case):
@@ -564,11 +625,19 @@ class C16(Check):
         if k == "text":
             _k, ep, text = case
             n = len(text)
+            pieces = _pieces(text)
+            if len(pieces) > 1:
+                for i in range(len(pieces)):
+                    yield ("text", ep, "".join(pieces[:i] + pieces[i + 1:]))
             chunk = n // 2
             while chunk >= 1:
                 for i in range(0, n, chunk):
                     yield ("text", ep, text[:i] + text[i + chunk:])
                 chunk //= 2
+            for i, ch in enumerate(text):
+                sub = _canon_char(ch)
+                if sub != ch:
+                    yield ("text", ep, text[:i] + sub + text[i + 1:])
         elif k == "hist":
             seq = case[1]
             n = len(seq)
@@ -645,8 +714,9 @@ class C16(Check):
                 reported.add((t, c, o["exc"]))
                 if o == b:  # the call alone already violates oracle 1
                     ctx.fail(t, "call %r %r alone in a fresh interpreter %s" % (c, drv.CALLS[c], _short(o)), case=("hist", (c,)))
-                else:
-                    ctx.fail(t, "call %r %r %s" % (c, drv.CALLS[c], _short(o)))
+                elif route == "fresh":
+                    ctx.fail(t, "call %r %r as call %d of the history %r %s" % (c, drv.CALLS[c], i + 1, list(seq), _short(o)))
+                # (warm route: the deviation is reported with a reduced fresh history, which shows this too)
         return dev
 
     def _run_hist(self, seq, ctx):
